@@ -48,9 +48,11 @@ class Tree:
                 f.write(f'id={i}\n')
             self.ids[p] = i
         os.makedirs(os.path.join(self.T, 'a/root/empty'), exist_ok=True)
-        self.sym = {'<T>': self.T, '<A>': self.T + '/a', '<ROOT>': self.T + '/a/root', '<EVIL>': self.T + '/a/root_evil'}
+        self.sym = {'<T>': self.T, '<T1>': self.T.lstrip('/'), '<A>': self.T + '/a', '<ROOT>': self.T + '/a/root', '<EVIL>': self.T + '/a/root_evil'}
 
     def subst(self, s):
+        if s.startswith('<BS>'):        # every separator written as a backslash, also inside the absolute prefix
+            return self.subst(s[4:]).replace('/', '\\')
         for k, v in self.sym.items():
             s = s.replace(k, v)
         return s
@@ -114,7 +116,7 @@ def gen_paths(ctx):
     for rel in FILES:
         for root_rel in ('a/root', 'a/root/sub', 'a/root/root'):
             r = posixpath.relpath('/' + rel, '/' + root_rel)
-            forms = [r, '<T>/' + rel, './' + r, r.replace('/', '\\'), r.replace('/', '//'), 'sub/../' + r, 'nope/../' + r,
+            forms = [r, '<T>/' + rel, '\\<T1>/' + rel, '<BS><T>/' + rel, '\\\\<T1>/' + rel, '<BS><T>/' + posixpath.dirname(rel), './' + r, r.replace('/', '\\'), r.replace('/', '//'), 'sub/../' + r, 'nope/../' + r,
                      r + '/', r + '/.', r + '/..', '<ROOT>/' + r, '<ROOT>/./' + r, r.replace('../', '.././'), '/' + r,
                      posixpath.dirname(r), posixpath.dirname(r) + '/', posixpath.dirname(r).replace('/', '\\')]
             out.extend(forms)
@@ -587,7 +589,7 @@ def _fails(fsmod, tree, cfg, sym_path, op):
 
 def _tokens(s):
     import re
-    return [t for t in re.split(r'(<[A-Z]+>|/|\\)', s) if t]
+    return [t for t in re.split(r'(<[A-Z0-9]+>|/|\\)', s) if t]
 
 
 def search(ctx):
